@@ -15,6 +15,7 @@ def main():
     ap.add_argument("--replay", default=None)
     a = ap.parse_args()
     seed = int(os.environ.get("VERIF_SEED", "20261004"))
+    os.environ.setdefault("VERIF_TLC_COVERAGE", "1" if a.tier == "thorough" else "0")
     if a.pid == "setup":
         import setup_check
         return setup_check.main()
